@@ -182,6 +182,10 @@ func elementSource(fn *ssa.Function, e ssa.Value, args map[*ssa.Parameter]ssa.Va
 	if d > 8 {
 		return []elemSrc{{kind: "unknown", pos: e.Pos(), desc: exprOfValue(e)}}
 	}
+	// a node that was explicitly placed under the owner (`v.Parent = owner` before the list store)
+	if owner, ok := k1wPositioned[e]; ok {
+		return []elemSrc{{kind: "child-of", of: owner, pos: e.Pos(), desc: "a node whose Parent was set to " + exprOfValue(owner)}}
+	}
 	switch x := e.(type) {
 	case *ssa.UnOp:
 		if ia, ok := x.X.(*ssa.IndexAddr); ok && x.Op == token.MUL {
@@ -248,12 +252,14 @@ func elementSource(fn *ssa.Function, e ssa.Value, args map[*ssa.Parameter]ssa.Va
 	return []elemSrc{{kind: "unknown", pos: e.Pos(), desc: exprOfValue(e)}}
 }
 
+// k1wPositioned: while one list store is judged, the values that were given Parent = owner before it.
+var k1wPositioned map[ssa.Value]ssa.Value
+
 // k1wAccepted: whole-list stores whose elements are positioned by other means.
 var k1wAccepted = map[string]string{
 	"yqlib.CandidateNode.AddChild/n.Content=":         "the one primitive that appends a child: it has just copied it, set its Parent and given it a key (K1)",
 	"yqlib.CandidateNode.AddKeyValueChild/n.Content=": "the map primitive: key and value copies were re-parented and re-keyed on the lines above (K2)",
 	"yqlib.CandidateNode.UnmarshalJSON/o.Content=":    "children decoded for this node: each is created with Parent = o and its key by the lines above",
-	"yqlib.CandidateNode.UnmarshalJSON/o.Content=#2":  "as above (sequence branch)",
 }
 
 func ruleK1w(c *Ctx, rule string, min int) {
@@ -281,7 +287,26 @@ func ruleK1w(c *Ctx, rule string, min int) {
 				key = fmt.Sprintf("%s#%d", key, seenKey[key])
 			}
 			pos := c.P.pos(st.Pos())
+			// values given `v.Parent = x` on the way to this store are x's children by construction
+			k1wPositioned = map[ssa.Value]ssa.Value{}
+			eachInstr(fn, func(i2 ssa.Instruction) {
+				ps, ok := i2.(*ssa.Store)
+				if !ok {
+					return
+				}
+				fa, ok := ps.Addr.(*ssa.FieldAddr)
+				if !ok || fieldName(fa) != "Parent" || !isNodePtr(fa.X.Type()) {
+					return
+				}
+				if ps.Val != x && !sameLenBase(ps.Val, x) {
+					return
+				}
+				if ps.Block() == st.Block() && instrIndex(ps) < instrIndex(st) || ps.Block() != st.Block() && ps.Block().Dominates(st.Block()) {
+					k1wPositioned[fa.X] = x
+				}
+			})
 			srcs := elementSources(fn, st.Val, nil, 0, map[ssa.Value]bool{})
+			k1wPositioned = nil
 			var bad []string
 			for _, s := range srcs {
 				switch s.kind {
